@@ -185,6 +185,17 @@ def extract(root: Path):
         if s not in txt:
             raise U(ARITH, bm, f"ArithBinaryToX86 no longer contains `{s}`")
     out["copies_rhs"] = True
+    # does the pattern refuse 8-bit multiplication (`imul r8, r8` does not exist)?  (proposed repair C21-3)
+    guards = [n for n in ast.walk(bm) if isinstance(n, ast.If) and "RS_ImulOp" in ast.unparse(n.test)]
+    if not guards:
+        out["rejects_imul8"] = False
+    elif (len(guards) == 1 and "bitwidth == 8" in ast.unparse(guards[0].test)
+          and "new_type is x86.RS_ImulOp" in ast.unparse(guards[0].test)
+          and len(guards[0].body) == 1 and isinstance(guards[0].body[0], ast.Raise) and not guards[0].orelse
+          and txt.index("RS_ImulOp") < txt.index("cast_to_regs")):
+        out["rejects_imul8"] = True
+    else:
+        raise U(ARITH, guards[0], "unrecognised special case for RS_ImulOp in ArithBinaryToX86")
 
     # ---- registers.py + prologue_epilogue_insertion.py -------------------------------------------
     idx = rsrc.need("X86_INDEX_BY_NAME")
@@ -265,6 +276,8 @@ def render(f) -> str:
         + "; ".join(f"({a}, {b})" for a, b, _, _ in f["binop_table"]) + "].",
         "(* " + ", ".join(f"{kn} -> {vn}" for _, _, kn, vn in f["binop_table"]) + " *)",
         f"Definition c21_binop_copies_rhs : bool := {'true' if f['copies_rhs'] else 'false'}.",
+        "(* ArithBinaryToX86 raises DiagnosticException for muli on 8-bit integers *)",
+        f"Definition c21_rejects_imul8 : bool := {'true' if f['rejects_imul8'] else 'false'}.",
         "",
         "(* prologue_epilogue_insertion.py *)",
         f"Definition c21_callee_saved : list Z := {zs(f['callee_saved'])}.",
